@@ -18,7 +18,8 @@ RULE = (
     "fields through veryl_token) with the child's own method, on every path of the child's presence context (function / Some arm / loop "
     "iteration / variant arm), in declaration (= source) order; the only children never visited are ForStatement.colon and "
     "ForStatement.scalar_type. R2 the Migrator's VerylWalker impl overrides exactly veryl_token and for_statement, and its for_statement "
-    "passes the same check with the same two exceptions. R3 the token sink: veryl_token hands the token to Migrator::token, which pushes "
+    "passes the same check with the same two exceptions, and the two dropped children are visited by a comment-collecting walker (overriding "
+    "only veryl_token, keeping every comment) whose harvest is pushed token by token. R3 the token sink: veryl_token hands the token to Migrator::token, which pushes "
     "the token and then every comment of x.comments (no adapter, no early exit); push_token appends the interned text of x.text on every "
     "path, everything else it appends is self.newline or a run of blanks, no byte length flows into self.column (Token.column counts "
     "characters), and the column is advanced relatively by a text's character count only where the text's newline count is known to be zero; every generated "
@@ -67,6 +68,49 @@ def run(world, tier, info, only=None):
     for m in ov:
         if m in gr.node_of:
             walk.check_method(ck, "R2", gr, IMPL + m, gr.node_of[m], "migrator/" + m, allow_missing=DROPPED.get(gr.node_of[m], ()))
+    # the children that are dropped keep their comments: a comment-collecting walker visits them and what it gathered is pushed
+    p_fs = IMPL + "for_statement"
+    mw = walk.MethodWalk(gr, p_fs)
+    gfs = mw.g
+    coll_types = set()
+    sig = []
+    for chain in DROPPED["ForStatement"]:
+        vs = [v for v in mw.visits if v[3] == tuple(chain) and v[1] == "method"]
+        recv_ok = []
+        for bi, kind, name, ch, t in vs:
+            a0 = t["args"][0]
+            ty = gfs.ty(a0[1][0]) if a0[0] != "k" else ""
+            ty = re.sub(r"^&(mut )?", "", ty)
+            if ty.startswith("veryl_migrator::") and ty != MIG:
+                recv_ok.append(bi)
+                coll_types.add(ty)
+        if not recv_ok or mw.skip_path(0, recv_ok, set(), []) is not None:
+            sig.append("dropped-comments:" + ".".join(chain))
+    pushes_coll = False
+    for h, lp in mw.loops.items():
+        r, pth = lp["root"], lp["path"]
+        rl = r[1] if r[0] == "arg" else None
+        # a loop over a field of the collector local, each iteration pushing the item through push_token
+        ty_ok = any(ct.split("::")[-1] in gfs.ty(l) for ct in coll_types for l in range(len(gfs.locals))) if coll_types else False
+        pt = [bi for bi, t in gfs.calls("^" + re.escape(MIG + "::push_token") + "$") if bi in gfs.reach_from(lp["some"], avoid=[h]) and
+              flow.access_path(gfs, t["args"][1])[0][:1] == ("call",) and flow.access_path(gfs, t["args"][1])[0][2] == h]
+        if ty_ok and pt and not flow.escapes(gfs, lp["some"], pt, stops=[h]) and not lp["adapters"]:
+            pushes_coll = True
+    if not pushes_coll and not sig:
+        sig.append("dropped-comments:not-pushed")
+    ck.ob("R2", "migrator/for_statement" + ("[%s]" % "+".join(sorted(sig)) if sig else "/dropped-children-keep-comments"), not sig and pushes_coll, site(w.fns[p_fs]),
+          "the comments of the removed `: Type` are gathered by a comment-collecting walker over colon and scalar_type and every one of them is pushed" if not sig and pushes_coll else
+          "the for-loop index type is removed together with the comments attached to its tokens (%s)" % sig)
+    for ct in sorted(coll_types):
+        ov_c = sorted(q.split(">::")[-1] for q in w.fns if q.startswith("<" + ct + " as veryl_migrator::veryl_walker::VerylWalker>::") and "{" not in q)
+        okc = ov_c == ["veryl_token"]
+        if okc:
+            gq = Fn(w.mir("<" + ct + " as veryl_migrator::veryl_walker::VerylWalker>::veryl_token"))
+            lps = [(h, some) for h, t, some, none, item in flow.loops_over(gq) if flow.access_path(gq, t["args"][0])[1][-1:] == ("comments",)]
+            ps = [bi for bi, t in gq.calls(r"^alloc::vec::Vec::<T, A>::push$")]
+            okc = len(lps) == 1 and bool(ps) and not flow.escapes(gq, lps[0][1], ps, stops=[lps[0][0]])
+        ck.ob("R2", "comment-collector/%s" % ct.split("::")[-1], okc, site(w.fns[p_fs]),
+              "%s overrides only veryl_token and keeps every comment of every token it is shown" % ct.split("::")[-1])
     # ---------------- R3 token sink ---------------------------------------------------------------------------
     g = Fn(w.mir(IMPL + "veryl_token"))
     tk = [(bi, t) for bi, t in g.calls("^" + re.escape(MIG + "::token") + "$")]
